@@ -9,9 +9,14 @@ import json, os, shutil, subprocess, sys, time, glob
 
 prop, mut = sys.argv[1], sys.argv[2]
 extra = sys.argv[3:]
-WT = "/tmp/seed/%s" % prop
+WT = os.path.join(os.environ.get("SEED_ROOT", "/tmp/seed"), prop)
 OUT = os.path.join(WT, "OUT")
 VERIF = os.path.dirname(os.path.dirname(os.path.abspath(__file__)))
+RUNVERIF = os.environ.get("SEED_VERIF", VERIF)      # copy of /verif the checks are run from (so that work in /verif/lean does not interfere)
+SAFE = mut.startswith("safe")                       # behaviour-preserving rewrite: no demonstration, the checks must stay quiet
+ALL = ["C%02d" % i for i in range(1, 21)]
+if extra == ["ALL"]:
+    extra = [p for p in ALL if p != prop]
 
 
 def sh(cmd, cwd=None, timeout=1800):
@@ -50,11 +55,11 @@ if rc != 0:
 sh("git apply %s" % patch, cwd=WT)
 ok, tail = build_and_test()
 meta["tests_pass_with_change"] = ok
-rc_mut, out_mut = run_demo("mut")
+rc_mut, out_mut = (1, "safe change: no demonstration") if SAFE else run_demo("mut")
 meta["demo_with_change"] = {"exit": rc_mut, "tail": out_mut}
 sh("git checkout -- src tests", cwd=WT)
 sh("cmake --build _build 2>&1 | tail -1", cwd=WT)        # demonstrations of tool-level changes use the binaries in _build
-rc_clean, out_clean = run_demo("clean")
+rc_clean, out_clean = (0, "") if SAFE else run_demo("clean")
 meta["demo_without_change"] = {"exit": rc_clean, "tail": out_clean}
 confirmed = ok and rc_mut not in (0, None) and rc_clean == 0
 meta["confirmed"] = confirmed
@@ -73,7 +78,7 @@ results = {}
 try:
     for p in [prop] + extra:
         t0 = time.time()
-        rc, out = sh("python3 tools/check.py %s --tier quick" % p, cwd=VERIF, timeout=3600)
+        rc, out = sh("python3 tools/check.py %s --tier quick" % p, cwd=RUNVERIF, timeout=3600)
         viol = [l for l in out.splitlines() if l.startswith("VIOLATION")]
         results[p] = {"exit": rc, "violation_line": viol[0] if viol else None, "summary": out.strip().splitlines()[-1][:300] if out.strip() else "",
                       "wall_s": round(time.time() - t0, 1)}
@@ -83,15 +88,19 @@ try:
                 d = json.load(open(rp))
                 results[p]["signatures"] = [f["signature"] for f in d.get("failures", [])][:8]
                 results[p]["broken_obligations"] = [b["name"] if isinstance(b, dict) else b[0] for b in d.get("broken_obligations", [])][:6]
-                os.remove(rp)
+                if not SAFE:
+                    os.remove(rp)
+                else:
+                    results[p]["replay"] = rp
             except Exception:
                 pass
         print(p, results[p])
 finally:
     sh("git -C /repo checkout -- .")
 meta["checks"] = results
-meta["caught_by"] = [p for p, r in results.items() if r["exit"] == 1 and r["violation_line"]]
-dst = os.path.join(VERIF, "seeded", "%s-%s" % (prop, mut))
+meta["caught_by"] = [p for p, r in results.items() if r["exit"] != 0 or r["violation_line"]]
+meta["kind"] = "behaviour-preserving rewrite (checks must stay quiet)" if SAFE else "property-breaking change"
+dst = os.path.join(os.environ.get("SEED_STORE", os.path.join(VERIF, "seeded")), "%s-%s" % (prop, mut))
 os.makedirs(dst, exist_ok=True)
 shutil.copy(patch, os.path.join(dst, "patch.diff"))
 for f in glob.glob(os.path.join(OUT, mut + "_demo.*")):
@@ -102,4 +111,4 @@ meta["needs"] = open(md).read()[:3000] if os.path.exists(md) else ""
 meta["what_was_run"] = ("scratch worktree: git apply; cmake --build; _build/tests/tests (98 pass); demo built against the changed and the clean "
                         "tree; then git -C /repo apply; python3 tools/check.py <prop> --tier quick; git -C /repo checkout -- .")
 json.dump(meta, open(os.path.join(dst, "meta.json"), "w"), indent=1)
-print("caught_by:", meta["caught_by"])
+print("ALARMS (false):" if SAFE else "caught_by:", meta["caught_by"])
